@@ -271,3 +271,50 @@ Fixpoint refresh (answer : Z -> outcome) (attempts : nat) (c : cands) (tried : l
     | S a => refresh answer a c2 tr
     end
   end.
+
+(* ---- the same iteration with Metadata.Timeout set: the deadline is an environment event ---- *)
+(* [dl] answers the successive `pastDeadline(..)` tests of one call (an exhausted stream says "not yet").
+   The loop tests it before asking each candidate (only when there is one: `broker != nil && !pastDeadline(0)`);
+   `retry` tests it before sleeping and trying again. *)
+Inductive pstop :=
+| PAnswer (r : rresult)   (* a candidate answered / failed authentication *)
+| PNoBroker               (* `any` found nobody: out of brokers *)
+| PDeadline.              (* a candidate is left but the deadline has passed *)
+
+Definition pop_dl (dl : list bool) : bool * list bool := match dl with [] => (false, []) | b :: r => (b, r) end.
+
+Fixpoint pass_d (answer : Z -> outcome) (fuel : nat) (c : cands) (tried : list Z) (dl : list bool)
+  : cands * pstop * list Z * list bool :=
+  match fuel with
+  | O => (c, PNoBroker, tried, dl)
+  | S f =>
+    match any c with
+    | None => (c, PNoBroker, tried, dl)
+    | Some b =>
+      let '(past, dl1) := pop_dl dl in
+      if past then (c, PDeadline, tried, dl1) else
+      match answer b with
+      | Answers => (c, PAnswer (RSuccess b), tried ++ [b], dl1)
+      | AuthFails => (c, PAnswer (RAuth b), tried ++ [b], dl1)
+      | Fails => pass_d answer f (deregister c b) (tried ++ [b]) dl1
+      end
+    end
+  end.
+
+(* the two give-up exits of tryRefreshMetadata: with a candidate left (deadline) nothing is resurrected; with
+   nobody left the seeds set aside are resurrected; both then go through `retry` *)
+Fixpoint refresh_d (answer : Z -> outcome) (attempts : nat) (c : cands) (tried : list Z) (dl : list bool)
+  : cands * rresult * list Z * list bool :=
+  let '(c1, st, tr, dl1) := pass_d answer (S (size c)) c tried dl in
+  match st with
+  | PAnswer x => (c1, x, tr, dl1)
+  | _ =>
+    let c2 := match st with PDeadline => c1 | _ => resurrect c1 end in
+    match attempts with
+    | O => (c2, ROutOfBrokers, tr, dl1)
+    | S a =>
+      let '(past, dl2) := pop_dl dl1 in
+      if past then (c2, ROutOfBrokers, tr, dl2)      (* "skipping last retries as we would go past the metadata timeout" *)
+      else refresh_d answer a c2 tr dl2
+    end
+  end.
